@@ -10,6 +10,13 @@ struct VLogger : Logger
 };
 VLogger::VLogger() : Logger(LogFlags()) {}
 using LE = Logger::LogElement;
+// trees with an explicit exit marker in LogElement (_exit, repo fix "logger exit marker") and trees that use the empty text as the marker
+template<class T> auto le_get_exit(const T *e, int) -> decltype(e->_exit, bool()) { return e->_exit; }
+template<class T> bool le_get_exit(const T *, long) { return false; }
+template<class T> auto le_set_exit(T *e, bool v, int) -> decltype(e->_exit, void()) { e->_exit = v; }
+template<class T> void le_set_exit(T *, bool, long) {}
+template<class L, class T> auto push_marker(L *l, T *, int) -> decltype(T()._exit, void()) { T le; le._exit = true; l->_msg_queue.try_push(le); }   // second statement group of the new stop()
+template<class L, class T> void push_marker(L *l, T *, long) { l->Logger::enqueue(std::string()); }                                             // second statement of the old stop()
 extern "C" {
 void vf_lg_init(VLogger *l, unsigned levels)
 {
@@ -23,12 +30,13 @@ bool vf_lg_enqueue(VLogger *l, const char *txt, unsigned n, unsigned level, unsi
 void vf_lg_stop(VLogger *l) { l->Logger::stop(); }
 // the two steps of stop() separately (same statements as Logger::stop), so that the logger thread can be scheduled between them
 void vf_lg_stop_step1(VLogger *l) { l->_stopping.request_stop(); }
-void vf_lg_stop_step2(VLogger *l) { l->Logger::enqueue(std::string()); }
+void vf_lg_stop_step2(VLogger *l) { push_marker(l, (LE*)nullptr, 0); }
 bool vf_lg_stopping(VLogger *l) { return bool(l->_stopping); }
 // queue elements: copy construction / inspection / destruction through the real LogElement members
 void vf_le_copy(LE *dst, const LE *src) { new (dst) LE(*src); }
-// an element as the queue delivers it: same value, level and (non-)empty text as the one pushed
-void vf_le_make(LE *dst, unsigned val, unsigned level, bool empty) { new (dst) LE(7, empty ? std::string() : std::string("x"), Logger::Level(level), nullptr, val); }
+// an element as the queue delivers it: same value, level, (non-)empty text and exit flag as the one pushed
+void vf_le_make(LE *dst, unsigned val, unsigned level, bool empty, bool exitflag) { new (dst) LE(7, empty ? std::string() : std::string("x"), Logger::Level(level), nullptr, val); le_set_exit(dst, exitflag, 0); }
+bool vf_le_exit(const LE *e) { return le_get_exit(e, 0); }
 unsigned vf_le_level(const LE *e) { return unsigned(e->_level); }
 unsigned vf_le_val(const LE *e) { return e->_val; }
 bool vf_le_empty(const LE *e) { return e->_str.empty(); }
